@@ -126,7 +126,7 @@ impl Circuit {
             return Err(CircuitError::EmptyOutputs);
         }
         for &o in self.output_regs.iter() {
-            if o > max_reg {
+            if o > max_reg || self.max_reg_count == 0 {
                 return Err(CircuitError::InvalidOutput(o));
             }
         }
@@ -140,9 +140,14 @@ impl Circuit {
                 return Err(CircuitError::InvalidInst(i));
             }
             match inst.op {
-                Op::Input(_) => {
+                Op::Input(Input { party, input }) => {
                     if i != inst.out.0 as usize {
                         return Err(CircuitError::InvalidInput(i, *inst));
+                    }
+                    // the instruction must name an existing input bit of an existing party
+                    match self.input_regs.get(party as usize) {
+                        Some(&bits) if (input as usize) < bits => {}
+                        _ => return Err(CircuitError::InvalidInput(i, *inst)),
                     }
                 }
                 Op::Xor(Xor(x, y)) | Op::And(And(x, y)) => {
@@ -166,6 +171,12 @@ impl Circuit {
                 }
             }
             register_set[inst.out] = true;
+        }
+        // an output register must have been written by some instruction
+        for &o in self.output_regs.iter() {
+            if !register_set[o] {
+                return Err(CircuitError::InvalidOutput(o));
+            }
         }
 
         Ok(())
